@@ -144,8 +144,10 @@ func kUnlink(p string) error {
 	if err := syscall.Unlink(p); err != nil {
 		return err
 	}
-	par.note(unix.NOTE_WRITE)
-	id.note(unix.NOTE_DELETE)
+	unix.Atomically(func() {
+		par.note(unix.NOTE_WRITE)
+		id.note(unix.NOTE_DELETE)
+	})
 	return nil
 }
 
@@ -162,8 +164,10 @@ func kRmdir(p string) error {
 	if err := syscall.Rmdir(p); err != nil {
 		return err
 	}
-	par.note(unix.NOTE_WRITE | unix.NOTE_LINK)
-	id.note(unix.NOTE_DELETE)
+	unix.Atomically(func() {
+		par.note(unix.NOTE_WRITE | unix.NOTE_LINK)
+		id.note(unix.NOTE_DELETE)
+	})
 	return nil
 }
 
@@ -187,12 +191,14 @@ func kRename(a, b string) error {
 	if src.dir {
 		f |= unix.NOTE_LINK
 	}
-	da.note(f)
-	db.note(f)
-	src.note(unix.NOTE_RENAME)
-	if dst.ok && !(dst.dev == src.dev && dst.ino == src.ino) {
-		dst.note(unix.NOTE_DELETE)
-	}
+	unix.Atomically(func() {
+		da.note(f)
+		db.note(f)
+		src.note(unix.NOTE_RENAME)
+		if dst.ok && !(dst.dev == src.dev && dst.ino == src.ino) {
+			dst.note(unix.NOTE_DELETE)
+		}
+	})
 	return nil
 }
 
@@ -337,6 +343,23 @@ func init() {
 	engine.CodeFrames = []string{"harness/kq.(*kqueue).", "harness/kq.(*shared).", "harness/kq.(*watches).", "harness/kq.(*Watcher)."}
 	engine.BackendFrames = engine.CodeFrames
 	engine.CodeFrames = append([]string{"harness/kq.kCallFrame"}, engine.CodeFrames...)
+}
+
+// waitNoReader waits (bounded) until no reader goroutine of an earlier Watcher
+// is left. The reader closes the channels first and its kqueue and pipe
+// descriptors afterwards; a new simulated world must not start in between, or
+// those late closes hit descriptor numbers the new Watcher has been given.
+func waitNoReader() {
+	deadline := time.Now().Add(3 * time.Second)
+	for {
+		if _, st, _ := engine.GoroutineState("harness/kq.(*kqueue).readEvents"); st == "" {
+			return
+		}
+		if time.Now().After(deadline) {
+			return
+		}
+		time.Sleep(50 * time.Microsecond)
+	}
 }
 
 // kWedged is the verdict of a wait that did not end: proof that the backend
@@ -536,6 +559,7 @@ func runScript(t *testing.T, text string) scriptResult {
 			}
 		}
 	}
+	waitNoReader()
 	unix.Reset()
 	w, err := NewWatcher()
 	if err != nil {
@@ -627,6 +651,7 @@ loop:
 		case <-time.After(2 * time.Second):
 		}
 	}
+	waitNoReader()
 	for _, e := range evs {
 		n := e.Name
 		if n == tmp {
